@@ -359,6 +359,24 @@ def callee_label(t):
     return short(t[1])
 
 
+SUBST = []      # stack of {("param"|"upvar", name): text} — see substituting()
+
+
+class substituting:
+    """Within the block, parameters / captures of a closure body render as the given texts (the element of the
+    iteration it is applied to, the captured values at its creation site): a predicate closure is then read in the
+    vocabulary of the function that passes it to `any` / `all` / `find`."""
+
+    def __init__(self, mapping):
+        self.mapping = mapping
+
+    def __enter__(self):
+        SUBST.append(self.mapping)
+
+    def __exit__(self, *a):
+        SUBST.pop()
+
+
 def render(t, depth=0):
     """Human/regex-friendly label of a stripped term."""
     if depth > 40:
@@ -366,8 +384,12 @@ def render(t, depth=0):
     t = strip(t)
     k = t[0]
     if k == "param":
+        if SUBST and ("param", t[1]) in SUBST[-1]:
+            return SUBST[-1][("param", t[1])]
         return t[1]
     if k == "upvar":
+        if SUBST and ("upvar", t[1]) in SUBST[-1]:
+            return SUBST[-1][("upvar", t[1])]
         return "^" + t[1]
     if k == "var":
         return "$" + str(t[1])
